@@ -104,7 +104,21 @@ def r3_user_generator_kept(ctx):
             if (f.get("gargs") or [""])[0] != "mahf::state::random::Random":
                 return TOP
             return ok(Sym("found")) if has else err(Sym("StateError::NotFound"))
-        table = {"mahf::state::registry::StateRegistry::insert": ins, "mahf::state::registry::StateRegistry::contains": contains,
+        def entry(interp, env, f, args):
+            g = (f.get("gargs") or ["?"])[0]
+            log.append(("contains", g))
+            return Agg("registry-entry", g, "Occupied" if (has and g == "mahf::state::random::Random") else "Vacant", [])
+
+        def or_insert(interp, env, f, args):
+            e = args[0]
+            if isinstance(e, Agg) and e.kind == "registry-entry":
+                if e.variant == "Vacant":
+                    log.append(("insert", e.name))
+                return Sym("entry-value")
+            return TOP
+        table = {"mahf::state::registry::StateRegistry::entry": entry, "mahf::state::registry::entry::Entry::or_insert_with": or_insert,
+                 "mahf::state::registry::entry::Entry::or_insert": or_insert, "mahf::state::registry::entry::Entry::or_default": or_insert,
+                 "mahf::state::registry::StateRegistry::insert": ins, "mahf::state::registry::StateRegistry::contains": contains,
                  "mahf::state::registry::StateRegistry::has": contains, "mahf::state::registry::StateRegistry::find": find,
                  "mahf::state::registry::StateRegistry::try_borrow": find, "mahf::state::registry::StateRegistry::try_borrow_mut": find, "core::ops::function::FnOnce::call_once": call_init,
                  "mahf::configuration::Configuration::run": runf, "mahf::state::State::new": Sym("state"), RDEF: Sym("entropy-random"),
@@ -240,19 +254,36 @@ class ProxyCtx:
 def r5_child_generators(ctx):
     F = ctx.facts
     RND = "mahf::state::random::Random"
+    # K6: a child generator is (parent.constructor)(seed) with seed = exactly one next_u64() drawn from the parent
+    from collmodel import coll_oracle, install, load
     fn = F.fn("<mahf::state::random::RandomIter as core::iter::traits::iterator::Iterator>::next")
-    r = strip(fn.body.expr_of_local(0))
-    good = False
-    why = expr_str(r)
     ci = F.field_index(RND, "constructor")
-    if r[0] == "agg" and r[3] == "Some":
-        c = strip(r[4][0])
-        if c[0] == "call" and c[1] == "<fnptr>":
-            fop = fn.body.expr_of_op(c[3]["f"]["op"])
-            l0, cs0, f0 = origin(fop)
-            seed = strip(c[2][0]) if c[2] else None
-            good = l0 == ("arg", 1) and ci in f0 and seed is not None and seed[0] == "call" and seed[3]["f"].get("name") == "next_u64" and origin(seed[2][0])[0] == ("arg", 1)
-    ctx.check(good, "C08.R5", fn.key, "child-from-parent-seed-and-constructor", "a child generator is not (parent.constructor)(parent.next_u64()): %s" % why, detail=why[:160], loc=fn.loc())
+    ii = F.field_index(RND, "inner")
+    nf = len(F.adt(RND)["variants"][0]["fields"])
+    vals = [Sym("other")] * nf
+    vals[ci] = Sym("parent-constructor")
+    vals[ii] = Sym("parent-inner")
+    parent_home = 12001
+
+    def oracle5(interp, env, f, args, t, bb, path):
+        nm = f.get("name")
+        if nm in ("next_u64", "next_u32", "gen", "fill_bytes") and args:
+            interp.mstate["draws"] = interp.mstate.get("draws", ()) + (nm,)
+            return Sym("seed%d" % len(interp.mstate["draws"]))
+        if f.get("kind") == "fnptr" and isinstance(f.get("fnptr_value"), Sym):
+            interp.mstate["made"] = interp.mstate.get("made", ()) + ((f["fnptr_value"].tag, tuple(getattr(a, "tag", repr(a)) for a in args)),)
+            return Sym("child")
+        return TOP
+    it = install(Interp(fn.body, chain(oracle5, coll_oracle, std_oracle), [Agg("adt", "mahf::state::random::RandomIter", "RandomIter", [Ref(parent_home, [], frame="root")])], facts=F,
+                        inline=lambda k: k.startswith("<mahf::state::random::") or k.startswith("mahf::state::random::"), max_visits=6))
+    it.extra_env = {parent_home: Agg("adt", RND, "Random", vals)}
+    outs = []
+    for p in it.run():
+        r = p.ret
+        outs.append((p.end, r.variant if isinstance(r, Agg) else None, getattr(r.fields[0], "tag", None) if isinstance(r, Agg) and r.fields else None, p.mstate.get("draws", ()), p.mstate.get("made", ())))
+    good = outs == [("return", "Some", "child", ("next_u64",), (("parent-constructor", ("seed1",)),))]
+    why = str(outs)
+    ctx.check(good, "C08.R5", fn.key, "child-from-parent-seed-and-constructor", "a child generator is not (parent.constructor)(parent.next_u64()) with exactly one draw from the parent: %s" % why, detail=why[:160], loc=fn.loc())
     wr = F.fn(RND + "::with_rng")
     aggs = [st for b in wr.body.normal_blocks() for st in wr.body.stmts(b) if st[0] == "=" and st[2][0] == "agg" and st[2][1].get("adt") == RND]
     good = len(aggs) == 1
